@@ -39,6 +39,12 @@ RETS = [
     ("stdres", "std::result::Result<String, String>", "mk_res_string", True),
     ("opt", "Option<String>", "mk_opt", False),
 ]
+# return types that ARE Result but are not spelled in a way the macros recognise (known finding F7):
+# appended as the last two functions of every corpus
+UNRECOGNISED_RETS = [
+    ("alias", "ResAlias", "mk_res_u64", False),
+    ("coreres", "core::result::Result<u64, String>", "mk_res_u64", False),
+]
 
 
 def gen(seed, n):
@@ -66,7 +72,13 @@ def gen(seed, n):
         deps = sorted(rng.sample(DEPS, rng.randrange(0, 3))) if rng.random() < 0.3 else []
         cache_if = rng.random() < 0.3
         inv_on = rng.random() < 0.3
-        fns.append(dict(i=i, is_async=is_async, policy=policy, limit=limit, maxmem=maxmem, ttl=ttl, fw=fw, scope=scope,
+        real_result = ret[3]
+        if i >= n - len(UNRECOGNISED_RETS):
+            ret = UNRECOGNISED_RETS[i - (n - len(UNRECOGNISED_RETS))]
+            real_result = True
+            cache_if = False; inv_on = False; is_async = (i % 2 == 1); scope = None; thread_scope = False
+            limit = None; maxmem = None; ttl = None
+        fns.append(dict(i=i, real_result=real_result, is_async=is_async, policy=policy, limit=limit, maxmem=maxmem, ttl=ttl, fw=fw, scope=scope,
                         sig=sig, ret=ret, name=custom_name, tags=tags, events=events, deps=deps, cache_if=cache_if,
                         inv_on=inv_on, thread_scope=thread_scope))
     return fns
@@ -107,7 +119,7 @@ def spec_line(f):
                      "1" if f["maxmem"] is not None else "0", "1" if f["ret"][3] else "0",
                      "1" if f["cache_if"] else "0", "1" if f["inv_on"] else "0",
                      ",".join(f["tags"]), ",".join(f["events"]), ",".join(f["deps"]), ident,
-                     attr_list(f).replace("|", "/")])
+                     attr_list(f).replace("|", "/"), "1" if f["real_result"] else "0"])
 
 
 def fn_ident(f):
@@ -123,6 +135,7 @@ def render(fns):
     w("use cachelito::cache;")
     w("use cachelito_async::cache_async;")
     w("use cachelito_core::MemoryEstimator;")
+    w("pub type ResAlias = Result<u64, String>;")
     w("")
     for f in fns:
         i = f["i"]
